@@ -13,7 +13,7 @@ Definition qptype_eqb (a b : qptype) : bool :=
   end.
 
 Record qpacket := {
-  qp_type : qptype; qp_isserver : bool; qp_ts : Z;
+  qp_type : qptype; qp_isserver : bool; qp_ts : Z * Z;      (* (time as written, identity of the float timestamp) *)
   qp_first_byte : bytes;                       (* one byte, header protection removed *)
   qp_version : bytes; qp_dcid_len : bytes; qp_dcid : bytes; qp_scid_len : bytes; qp_scid : bytes;
   qp_token_len_bytes : bytes; qp_token : bytes; qp_packet_len_bytes : bytes;
@@ -53,14 +53,14 @@ Definition remove_header_protection (long_header chacha : bool) (sample : bytes)
 
 Definition key_of (o : option bytes) : result bytes := match o with Some k => Ok k | None => Exn KeyError end.
 
-Definition mk_long (t : qptype) (isserver : bool) (ts : Z) (fb version dcid_len dcid scid_len scid tlb tok plb pn payload sup : bytes) : qpacket :=
+Definition mk_long (t : qptype) (isserver : bool) (ts : Z * Z) (fb version dcid_len dcid scid_len scid tlb tok plb pn payload sup : bytes) : qpacket :=
   {| qp_type := t; qp_isserver := isserver; qp_ts := ts; qp_first_byte := fb; qp_version := version; qp_dcid_len := dcid_len; qp_dcid := dcid;
      qp_scid_len := scid_len; qp_scid := scid; qp_token_len_bytes := tlb; qp_token := tok; qp_packet_len_bytes := plb; qp_pn := pn;
      qp_payload := payload; qp_key_phase := 0; qp_supported := sup |}.
 
 (* extract_quic_packet: Ok (packets found (0 or 1), rest of the datagram).  Every exception inside is caught by the code:
    the packets collected so far are returned and the rest of the datagram is dropped. *)
-Definition extract_inner (d : bytes) (ts : Z) (isserver : bool) (guessed_dcid : bytes) (keys : hp_keys) (chacha : bool)
+Definition extract_inner (d : bytes) (ts : Z * Z) (isserver : bool) (guessed_dcid : bytes) (keys : hp_keys) (chacha : bool)
   : result (list qpacket * bytes) :=
   do long <- get_header_type_long d;
   if from_be d =? 0 then Ok ([], []) else
@@ -137,7 +137,7 @@ Definition extract_inner (d : bytes) (ts : Z) (isserver : bool) (guessed_dcid : 
              qp_scid_len := []; qp_scid := []; qp_token_len_bytes := []; qp_token := []; qp_packet_len_bytes := []; qp_pn := pn;
              qp_payload := payload; qp_key_phase := Z.land (Z.shiftr fb0 2) 1; qp_supported := [] |} ], []).
 
-Definition extract_quic_packet (d : bytes) (ts : Z) (isserver : bool) (guessed_dcid : bytes) (keys : hp_keys) (chacha : bool)
+Definition extract_quic_packet (d : bytes) (ts : Z * Z) (isserver : bool) (guessed_dcid : bytes) (keys : hp_keys) (chacha : bool)
   : list qpacket * bytes :=
   match extract_inner d ts isserver guessed_dcid keys chacha with
   | Ok r => r
